@@ -146,6 +146,11 @@ def main():
     undischarged = [o for o in obligations if o["ok"] is False and (o["kind"] in ("theorem", "translation", "audit")
                     or o["name"].startswith(("harness builds", "judge executable builds")))]
     have_input = any(v[1] for v in violations)
+    if undischarged and not have_input and "search" in P:
+        # property-specific search of the regenerated model for a concrete failing input
+        for item in P["search"](log)[:10]:
+            violations.append((new_replay("model", [item], "found by evaluating the regenerated model"), True))
+        have_input = any(v[1] for v in violations)
     if undischarged and not have_input:
         note = "obligations that no longer check:\n" + "\n".join("%s :: %s" % (o["name"], o["detail"][:400].replace("\n", " | ")) for o in undischarged[:30])
         if build_errs:
